@@ -58,7 +58,7 @@ def main(tier, replay=None):
         il = impl.get(key, "")
         k = cl[0]
         f = cl.split(" ")
-        if k in "NAX":
+        if k in "NMAX":
             if il != model.get(key, ""):
                 diffs.append(key)
         if k == "A":
@@ -75,9 +75,10 @@ def main(tier, replay=None):
             if len(parts) >= 3 and (parts[2] == "0" or parts[2] in live_init):
                 mon_viol += 1
                 report("exchange-id-not-unique", key, "get_next_exch_id returned an identifier that is 0 or held by a live exchange this node initiated")
-        elif k == "N":
+        elif k in "NM":
             n_mon += 1
-            ops = [o for o in (f[4].split(",") if len(f) > 4 else []) if o]
+            opf = 4 if k == "N" else 5
+            ops = [o for o in (f[opf].split(",") if len(f) > opf else []) if o]
             outs = il.split(" ")[2].split("|") if len(il.split(" ")) > 2 else []
             sends = []          # (ctr, ack, msg) in wire order
             for o, r in zip(ops, outs):
@@ -103,6 +104,12 @@ def main(tier, replay=None):
             if any(b <= a for a, b in zip(firsts, firsts[1:])):
                 mon_viol += 1
                 report("fresh-counter-not-increasing", key, "a message that is not a retransmission carried a counter not above all earlier ones")
+            # the end of the counter range of a secure session: the send must be refused, not abort the node
+            # (the harness is built with overflow checks; in the release profile, overflow-checks = false, the
+            # same input makes the counter wrap to 0 and nonces are used again under the same keys)
+            elif "panic" in outs:
+                mon_viol += 1
+                report("counter-exhaustion-not-refused", key, "the session's counter range is used up and the send aborts (overflow-checked build) / wraps to 0 (release profile) instead of being refused")
         else:
             n_mon += 1
             d = fields(il)
@@ -131,7 +138,7 @@ def main(tier, replay=None):
     for key, cl in case_by_key.items():
         kinds[cl[0]] = kinds.get(cl[0], 0) + 1
         ml, il = model.get(key, ""), impl.get(key, "")
-        if cl[0] == "N" and ("timeout" in ml or "dup" in ml or any(x.count(":") == 2 and not x.endswith(":-") for x in ml.split(" ")[2].split("|") if x.startswith("ok:"))):
+        if cl[0] in "NM" and ("timeout" in ml or "dup" in ml or any(x.count(":") == 2 and not x.endswith(":-") for x in ml.split(" ")[2].split("|") if x.startswith("ok:"))):
             nt.add(cl.split(" ", 2)[2])
         elif cl[0] in "AX" and len(cl.split(" ")) > 3 and cl.split(" ")[3]:
             nt.add(cl.split(" ", 2)[2])
